@@ -31,7 +31,7 @@ pub fn prop() -> HistProp {
             long(p, t)
         },
         cfgs: cfg_strategy,
-        quick: 1500,
+        quick: 4000,
         thorough: 30000,
         mk: |_, _, _| Box::new(C07 { ledger: BTreeMap::new(), paid: BTreeMap::new(), nontrivial: false }),
         extra: None,
